@@ -34,7 +34,9 @@ func codecAcceptance(text []byte, v bool, expect func(string, bool, bool, func()
 		expect("codec.UnmarshalValid", true, false, func() bool { var x interface{}; return codec.UnmarshalValid(text, &x) == nil })
 		expect("codec.Decoder.Decode", true, false, func() bool {
 			var x interface{}
-			return codec.NewDecoder(bytes.NewReader(text)).Decode(&x) == nil
+			dec := codec.NewDecoder(bytes.NewReader(text))
+			dec.UseNumber() // a plain Decoder converts numbers to float64 and (like encoding/json) rejects 1e991: that is about Go numbers, not about the grammar
+			return dec.Decode(&x) == nil
 		})
 	}
 }
